@@ -270,7 +270,16 @@ def check(run):
     for label, prog in (("debug", dbg), ("release", rel), ("debug+log", logged)):
         # the library's log lines print the whole rest of the input at every tag: formatting them is quadratic, so the logged pass
         # leaves out the few inputs above 4 KiB (they are decoded in the other two passes) — a log line cannot tell them apart
-        these = cases if label != "debug+log" else [c for c in cases if len(c.rsplit("\t", 1)[-1]) <= 8192]
+        # and the substitution sweeps of inputs above 160 bytes (one case line = 256 x length decodes: with every log line formatted
+        # that exceeds the harness' 10 s watchdog per line — a false "Hang" in the thorough tier, found by `vp run` 7)
+        def light(c):
+            f = c.split("\t")
+            if f[0] in ("dec_subst", "enum_subst"):
+                return len(f[-1]) <= 320
+            if f[0] in ("dec_all", "enum_all"):
+                return f[-1] in ("0", "1")
+            return len(f[-1]) <= 8192
+        these = cases if label != "debug+log" else [c for c in cases if light(c)]
         flat, mo, io = run_pair(run, drv, prog, these, "c02" + label.replace("+", "_"))
         if mo is None:
             continue
